@@ -17,6 +17,8 @@ histories on purpose (the region the finding's guard used to exclude) and count 
 from __future__ import annotations
 
 import itertools
+import math
+import struct
 from collections import Counter
 from fractions import Fraction
 
@@ -24,9 +26,9 @@ from harness import common as C
 
 META = {
     "id": "C20",
-    "technique": "Coq proof (induction over call histories of Gallina models of Core/Utils/Button/Potentiometer/Ultrasonic/SerialMonitor; Q arithmetic by field/lra) + extracted-model correspondence with the real modules + reference-memory oracle on the real modules",
-    "level_text": "Theorems C20_* (coq/Props/C20.v) are proved for all call histories, pins, numeric arguments and provider sample sequences of Gallina models of Reduino.Core, Utils.map/sleep, Button, Potentiometer, Ultrasonic and SerialMonitor.write; digital_read is proved to be the property's reference memory for every history (C20_unwritten_default, unconditional since the repair of Core.pin_mode; C20_unwritten_high_iff_pullup, C20_mode_decides_unwritten: an unwritten pin reads HIGH exactly while its current mode is INPUT_PULLUP). The extracted models are run against the real modules on exhaustive short and seeded random histories, numeric grids and sample sequences; floats are exact rationals in the model (results compared to 1e-9 relative).",
-    "level_note": "Trusted: Coq kernel, extraction (ExtrOcamlBasic), OCaml driver, harness/impl/c20_impl.py (fake serial backend, recording sleeper, provider callables), CPython as the meaning of str()/round()/bool(). The theorems are about the models; the correspondence check bounds their distance from the code. Not modelled: str() of floats/objects, non-ASCII isdigit/isspace/upper, IEEE specials, pins that are neither int nor str, SerialMonitor.read, pyserial.",
+    "technique": "Coq proof (induction over call histories of Gallina models of Core/Utils/Button/Potentiometer/Ultrasonic/SerialMonitor; Q arithmetic by field/lra; a bit-exact binary64 model of Utils.map/sleep over Coq.Floats.SpecFloat with Flocq's IEEE-754 theorems: rounding sequence, end points, error bound) + extracted-model correspondence with the real modules (floats compared bit for bit through float.hex) + reference-memory oracle on the real modules",
+    "level_text": "Theorems C20_* (coq/Props/C20.v) are proved for all call histories, pins, numeric arguments and provider sample sequences of Gallina models of Reduino.Core, Utils.map/sleep, Button, Potentiometer, Ultrasonic and SerialMonitor.write; digital_read is proved to be the property's reference memory for every history (C20_unwritten_default, unconditional since the repair of Core.pin_mode; C20_unwritten_high_iff_pullup, C20_mode_decides_unwritten: an unwritten pin reads HIGH exactly while its current mode is INPUT_PULLUP). The extracted models are run against the real modules on exhaustive short and seeded random histories, numeric grids and sample sequences; Utils.map and Utils.sleep have two models: exact rationals (C20_map_affine, C20_sleep) and the bit-exact binary64 one (Host/UtilsFloat.v: CPython's int/float/bool/None arithmetic, IEEE specials, signed zeros, OverflowError/ZeroDivisionError paths), proved to be the sequence of six correctly rounded operations (C20_fmap_rounding_sequence), exact at the lower end point under an overflow guard (C20_fmap_lower_endpoint_partial/_guard, refuted outside: finding F-C20-map-float-range), within 8*2^-53*(|to_low|+|ratio*(to_high-to_low)|) of the exact affine map and of the rational model (C20_fmap_error_bound, C20_fmap_error_vs_rational_model), and compared with the real function bit for bit. Core pins of any hashable type are inside the model (Host/CoreKeys.v, C20_xpin_same_key).",
+    "level_note": "Trusted: Coq kernel, extraction (ExtrOcamlBasic), OCaml driver, harness/impl/c20_impl.py (fake serial backend, recording sleeper, provider callables), CPython as the meaning of str()/round()/bool(). The theorems are about the models; the correspondence check bounds their distance from the code. Theorems stated with real numbers (Flocq) depend on the axioms of Coq's classical reals, listed per theorem. Not modelled: str() of floats/objects, non-ASCII isdigit/isspace/upper, NaN/inf float pins and pins of exotic hashable types, SerialMonitor.read, pyserial; correct rounding of int/int true division is modelled and compared bit for bit but not proved.",
     "design_ref": "DESIGN.md section 4 C20, Appendix A.1 and A.5",
 }
 
@@ -82,9 +84,24 @@ def enc_case(c):
                 ops.append([4, enc_pin(o[1])])
         return [0, ops]
     if k == "map":
+        if not all(q_encodable(v) for v in c[1:6]):
+            return [1] + [[3]] * 5                         # -> (3): outside the exact-rational model
         return [1] + [enc_num(v) for v in c[1:6]]
     if k == "sleep":
+        if not q_encodable(c[1]):
+            return [1] + [[3]] * 5                         # placeholder; the rational model is skipped
         return [2, enc_num(c[1])]
+    if k == "corex":
+        ops = []
+        for o in c[1]:
+            code = {"pin_mode": 0, "digital_write": 1, "analog_write": 2, "digital_read": 3, "analog_read": 4}[o[0]]
+            if code == 0:
+                ops.append([0, enc_xpin(o[1]), o[2]])
+            elif code in (1, 2):
+                ops.append([code, enc_xpin(o[1]), enc_num(o[2])])
+            else:
+                ops.append([code, enc_xpin(o[1])])
+        return [9, ops]
     if k == "button":
         return [3, enc_num(c[1]), bool(c[2]), bool(c[3]), [[0 if o[0] == "set" else 1, enc_num(o[1])] for o in c[4]]]
     if k == "pot":
@@ -108,6 +125,88 @@ def enc_case(c):
 
 def dec_pin(w):
     return w[1] if w[0] == 0 else C.wstr(w[1])
+
+
+# ---- bit-exact floats on the wire: (0 s) zero | (1 s) inf | (2) nan | (3 s m e) canonical finite ----
+
+INF = float("inf")
+KINDF = {1: "ValueError", 2: "TypeError", 4: "OverflowError", 5: "ZeroDivisionError"}
+
+
+def enc_sf(x: float):
+    if x != x:
+        return [2]
+    s = 1 if math.copysign(1.0, x) < 0 else 0
+    if x in (INF, -INF):
+        return [1, s]
+    if x == 0:
+        return [0, s]
+    m, e = math.frexp(abs(x))                  # abs(x) = m * 2**e, 0.5 <= m < 1
+    ec = max(e - 53, -1074)
+    mant = int(math.ldexp(m, e - ec))          # exact: an integer below 2**53
+    assert math.ldexp(float(mant), ec) == abs(x)
+    return [3, s, mant, ec]
+
+
+def dec_sf(w) -> float:
+    if w[0] == 2:
+        return float("nan")
+    if w[0] == 0:
+        return -0.0 if w[1] else 0.0
+    if w[0] == 1:
+        return -INF if w[1] else INF
+    v = math.ldexp(float(w[2]), w[3])          # exact: w[2] < 2**53, result representable
+    return -v if w[1] else v
+
+
+def enc_fnum(v):
+    if v is None:
+        return [3]
+    if isinstance(v, bool):
+        return [2, v]
+    if isinstance(v, int):
+        return [0, v]
+    if isinstance(v, float):
+        return [1, enc_sf(v)]
+    raise TypeError(f"not a model number: {v!r}")
+
+
+def enc_fcase(c):
+    """the bit-exact (binary64) models of Host/UtilsFloat.v: map -> case 7, sleep -> case 8"""
+    if c[0] == "map":
+        return [7] + [enc_fnum(v) for v in c[1:6]]
+    return [8, enc_fnum(c[1])]
+
+
+def q_encodable(v):
+    """the exact-rational models take finite numbers only"""
+    return not isinstance(v, float) or (v == v and v not in (INF, -INF))
+
+
+def enc_xpin(p):
+    if p is None:
+        return [4]
+    if isinstance(p, bool):
+        return [2, p]
+    if isinstance(p, int):
+        return [0, p]
+    if isinstance(p, str):
+        return [1, p]
+    if isinstance(p, float):
+        return [3, Fraction(p)]
+    return [5]
+
+
+def dec_xkey(w):
+    """key of the model state -> the canonical form harness/impl/c20_impl.py canon_key reports"""
+    if w[0] == 0:
+        return w[1]
+    t = w[1]
+    if t and t[0] == -1:
+        return ["float", t[1], t[2]]
+    if t == [-2]:
+        return ["none"]
+    return C.wstr(t)
 
 
 def close(a: Fraction, b: Fraction, scale: Fraction = Fraction(0)) -> bool:
@@ -247,10 +346,42 @@ def eval_core(ctx, st, case, r, m, oracle=True):
             ctx.disagree("Core dicts after the history: model vs implementation", case, ms, is_)
 
 
+def exact_in_float(v):
+    """an int that float() converts without rounding (bools and floats trivially)"""
+    if isinstance(v, bool) or isinstance(v, float):
+        return True
+    try:
+        return int(float(v)) == v
+    except OverflowError:
+        return False
+
+
+def map_in_guard(args):
+    """the range guard of C20_fmap_* / of the finding F-C20-map-float-range: finite numbers whose non-zero
+    magnitudes lie in [1e-60, 1e60] (no intermediate overflow or underflow is possible: |differences| >= 1e-76,
+    |ratio| in [5e-137, 2e136], |product| <= 4e196) and whose ints are exactly representable in binary64."""
+    if not all(is_num(v) for v in args):
+        return False
+    for v in args:
+        a = abs(frac(v))
+        if a != 0 and not (Fraction(1, 10**60) <= a <= 10**60):
+            return False
+        if not exact_in_float(v):
+            return False
+    return True
+
+
+def sleep_in_guard(d):
+    return is_num(d) and abs(frac(d)) <= 10**300
+
+
 def eval_map(ctx, st, case, r, m, oracle=True):
     args = case[1:6]
     st.n["map:" + (r[0] if r[0] == "ok" else str(r[1]))] += 1
-    if all(is_num(v) for v in args):
+    if all(is_num(v) for v in args) and not map_in_guard(args):
+        st.n["map_outside_range_guard(bit-exact correspondence only)"] += 1
+    if map_in_guard(args):
+        st.n["map_judged_by_oracle"] += 1
         x, fl, fh, tl, th = (frac(v) for v in args)
         if oracle:
             if fl == fh:
@@ -270,16 +401,89 @@ def eval_map(ctx, st, case, r, m, oracle=True):
                 ctx.disagree("Utils.map: model raises, implementation differs", case, m, r)
         else:
             q = C.wq(m[1])
-            if r[0] != "ok" or not is_num(r[1]) or not close(frac(r[1]), q, abs(frac(args[3])) + abs(q)):
+            if not map_in_guard(args):
+                st.n["map_rational_model_not_compared(outside range guard)"] += 1
+            elif r[0] != "ok" or not is_num(r[1]) or not close(frac(r[1]), q, abs(frac(args[3])) + abs(q)):
                 ctx.disagree("Utils.map value: model vs implementation", case, float(q), r)
+
+
+def sf_class(w):
+    return {0: "zero", 1: "inf", 2: "nan", 3: "finite"}[w[0]] + ("-" if w[0] != 2 and w[1] else "")
+
+
+def arg_kind(v):
+    if v is None:
+        return "None"
+    if isinstance(v, bool):
+        return "bool"
+    if isinstance(v, int):
+        return "int" if abs(v) <= 2**53 else "bigint" if abs(v) < 2**1023 else "hugeint"
+    if v != v:
+        return "nan"
+    if v in (INF, -INF):
+        return "inf"
+    if v == 0:
+        return "-0.0" if math.copysign(1.0, v) < 0 else "0.0"
+    return "subnormal" if abs(v) < 2.2250738585072014e-308 else "float"
+
+
+def eval_fmap(ctx, st, case, r, fm):
+    """bit-exact correspondence: the binary64 model of Host/UtilsFloat.v against float.hex() of the real result"""
+    for v in case[1:6]:
+        st.n["fmap_arg:" + arg_kind(v)] += 1
+    if fm[0] == 1:
+        st.n["fmap:" + str(KINDF.get(fm[1]))] += 1
+        same = r[0] == "raise" and r[1] == KINDF.get(fm[1])
+        shown = ["raise", KINDF.get(fm[1])]
+    else:
+        want = dec_sf(fm[1])
+        st.n["fmap:" + sf_class(fm[1])] += 1
+        same = r[0] == "ok" and r[2] == "float" and r[3] == want.hex()
+        shown = ["ok", want.hex()]
+    if not same:
+        ctx.disagree("Utils.map, bit for bit (float.hex): binary64 model vs implementation", case, shown, [r[0], r[3] if r[0] == "ok" else r[1], r[2]])
+
+
+def eval_fsleep(ctx, st, case, r, fm):
+    st.n["fsleep_arg:" + arg_kind(case[1])] += 1
+    mcalls = [dec_sf(w).hex() for w in (fm[1] if fm[0] == 0 else fm[2])]
+    st.n["fsleep:" + ("ok" if fm[0] == 0 else str(KINDF.get(fm[1])))] += 1
+    for way, out in r.items():
+        status, exc, _calls, hexes = out
+        same = (status == "ok") == (fm[0] == 0) and (fm[0] == 0 or exc == KINDF.get(fm[1])) and hexes == mcalls
+        if not same:
+            ctx.disagree(f"Utils.sleep [{way}], bit for bit (float.hex): binary64 model vs implementation", case,
+                         [("ok" if fm[0] == 0 else KINDF.get(fm[1])), mcalls], [status, exc, hexes])
+
+
+def eval_corex(ctx, st, case, r, m, oracle=True):
+    """Core over pins that are neither int nor str: correspondence only (the statement quantifies over int and
+    str pin names; what True / 7.0 / None / a list do is modelled as it is, Host/CoreKeys.v)"""
+    ops = case[1]
+    for op, ir in zip(ops, r["results"]):
+        st.n["corex_pin:" + ("unhashable" if isinstance(op[1], list) else type(op[1]).__name__)] += 1
+        if ir[0] == "raise":
+            st.n["corex_raise:" + str(ir[1])] += 1
+    if m is None:
+        return
+    for i, (op, ir) in enumerate(zip(ops, r["results"])):
+        if not res_matches(m[1][i], ir):
+            ctx.disagree(f"Core call {i} {op} (extended pins): model vs implementation", case, m[1][i], ir)
+            return
+    key = lambda kv: repr(kv)
+    ms = {name: sorted(([dec_xkey(p), (C.wstr(v) if name == "modes" else v)] for p, v in m[2][j]), key=key)
+          for j, name in enumerate(("modes", "digital", "analog"))}
+    is_ = {name: sorted(([k, v] for k, v in r["state"][name]), key=key) for name in ("modes", "digital", "analog")}
+    if ms != is_:
+        ctx.disagree("Core dicts after the history (extended pins, keys as dict lookup identifies them): model vs implementation", case, ms, is_)
 
 
 def eval_sleep(ctx, st, case, r, m, oracle=True):
     d = case[1]
     for way, out in r.items():
-        status, exc, calls = out
+        status, exc, calls = out[:3]
         st.n[f"sleep_{way}:" + (status if status == "ok" else str(exc))] += 1
-        if oracle and is_num(d):
+        if oracle and sleep_in_guard(d):
             if frac(d) < 0:
                 if not (status == "raise" and exc == "ValueError") or calls:
                     ctx.fail(f"sleep({d!r}) [{way}] did not refuse a negative duration before sleeping", case, ["ValueError", []], out, key="sleep-negative")
@@ -444,7 +648,7 @@ def eval_serial(ctx, st, case, r, m, oracle=True):
                 ctx.disagree(f"SerialMonitor call {i} {o}: model vs implementation", case, [mtexts, mr], x)
 
 
-EVAL = {"core": eval_core, "map": eval_map, "sleep": eval_sleep, "button": eval_button,
+EVAL = {"core": eval_core, "corex": eval_corex, "map": eval_map, "sleep": eval_sleep, "button": eval_button,
         "pot": eval_pot, "ultra": eval_ultra, "serial": eval_serial}
 
 
@@ -574,6 +778,125 @@ def gen_map(rng, thorough):
     return cases
 
 
+NAN = float("nan")
+DBL_MAX = 1.7976931348623157e308
+FSPECIAL = [NAN, INF, -INF, 0.0, -0.0, 5e-324, -5e-324, 2.2250738585072014e-308, 2.225073858507201e-308, DBL_MAX, -DBL_MAX,
+            1e308, -1e308, 2.0 ** 53, 2.0 ** 53 + 2, 1.5e-323, 1e16, 0.1, 0.3, 1 / 3, 1.0, -1.0, 1e-320, 2.0 ** 1023, 2.0 ** -1022, 1e-300, 1e300]
+ISPECIAL = [0, 1, -1, True, False, 2 ** 53, 2 ** 53 + 1, 2 ** 53 - 1, -(2 ** 53 + 1), 2 ** 54 + 2, 2 ** 64, 2 ** 64 + 1, 10 ** 18 + 1,
+            10 ** 400, -10 ** 400, 2 * 10 ** 400, 3 * 10 ** 400, 2 ** 1024, 2 ** 1024 - 2 ** 970, 2 ** 1024 - 2 ** 970 - 1,
+            -(2 ** 1024 - 2 ** 970), 10 ** 308, 2 ** 1023, 7, 10, 1000, 3, 2 ** 1100 + 12345, 2 ** 2100]
+
+
+def rand_float(rng):
+    k = rng.random()
+    if k < 0.30:
+        return struct.unpack("<d", struct.pack("<Q", rng.getrandbits(64)))[0]      # any bit pattern (NaNs, subnormals, huge)
+    if k < 0.50:
+        return rng.choice(FSPECIAL)
+    if k < 0.72:
+        return rng.uniform(-1000, 1000)
+    if k < 0.84:
+        return rng.choice([1, -1]) * math.ldexp(rng.random(), rng.randint(-1080, 1023))
+    return float(rng.randint(-2 ** 54, 2 ** 54))
+
+
+def rand_int(rng):
+    k = rng.random()
+    if k < 0.4:
+        return rng.choice(ISPECIAL)
+    if k < 0.7:
+        return rng.randint(-1100, 1100)
+    return rng.choice([1, -1]) * rng.getrandbits(rng.choice([30, 53, 54, 64, 100, 500, 1023, 1024, 1025, 1100, 2200]))
+
+
+def rand_num(rng, p_int=0.3):
+    k = rng.random()
+    if k < 0.03:
+        return None
+    return rand_int(rng) if k < 0.03 + p_int else rand_float(rng)
+
+
+def gen_fmap(rng, thorough):
+    """the stream for the bit-exact binary64 model: IEEE specials, signed zeros, subnormals, overflow and
+    underflow, ints beyond 2^53 / beyond the float range, bools, None, zero spans across types"""
+    cases = []
+    sp = [NAN, INF, -INF, 0.0, -0.0, 5e-324, DBL_MAX, -DBL_MAX, 1, True, None, 2 ** 53 + 1, 10 ** 400, 0.1]
+    for t in itertools.product(sp, repeat=2):
+        cases.append(["map", 0.5, t[0], t[1], 0, 1])          # the == test across specials and types
+        cases.append(["map", t[0], 0, 1, t[1], 1.5])
+        cases.append(["map", t[0], t[1], 2, -1, 1])
+        cases.append(["map", 1, 0, 2, t[0], t[1]])
+    # the witnesses of the range guard (finding F-C20-map-float-range) and their neighbours
+    cases += [["map", 0, 0, 1, -1e308, 1e308], ["map", 0.0, 0.0, 1.0, -1e308, 1e308], ["map", 1, 0, 1, -1e308, 1e308],
+              ["map", 1, 2 ** 53 + 1, 2.0 ** 53, 0, 1], ["map", 1.0, 2 ** 53 + 1, 2.0 ** 53, 0, 1], ["map", 1, 2 ** 53 + 1, 2 ** 53, 0, 1],
+              ["map", 10 ** 400, 0, 2 * 10 ** 400, 0, 1], ["map", 10 ** 400, 0, 2 * 10 ** 400, 0, 1.0], ["map", 10 ** 400, 0, 2 * 10 ** 400, 0.0, 1],
+              ["map", 10 ** 400, 0.0, 2 * 10 ** 400, 0, 1], ["map", 1, 0, 1, 1e16, 1], ["map", 0, 0, -5, 0, 1], ["map", 0, 0, -5, -0.0, 0.0],
+              ["map", 0, 1, -(10 ** 400), 0, 1], ["map", 1, 0, 10 ** 400, 0, 1], ["map", 2 ** 1024, 0, 1, 0, 1], ["map", 2 ** 1100, 0, 2 ** 80, 0, 1],
+              ["map", 3, 0, 2 ** 1075, 0, 1], ["map", 1, 0, 2 ** 1074, 0, 1], ["map", 3, 0, 2 ** 1076, 0, 1], ["map", 2 ** 1024 - 2 ** 970, 0, 1, 0, 1],
+              ["map", 2 ** 1024 - 2 ** 970 - 1, 0, 1, 0, 1], ["map", 2 ** 1024 - 2 ** 970 - 1, 0, 1.0, 0, 1], ["map", 2 ** 1024 - 2 ** 970, 0, 1.0, 0, 1]]
+    for _ in range(60000 if thorough else 6000):
+        k = rng.random()
+        if k < 0.25:
+            t = [rand_int(rng) for _ in range(3)] + [rand_num(rng, 0.5), rand_num(rng, 0.5)]     # int / int true division
+        elif k < 0.45:
+            t = [rand_float(rng) for _ in range(5)]
+        else:
+            t = [rand_num(rng) for _ in range(5)]
+        r = rng.random()
+        if r < 0.08:
+            t[2] = t[1]
+        elif r < 0.16 and t[1] is not None:
+            v = t[1]                                       # the same value in another type, where one exists
+            try:
+                if isinstance(v, float) and v == int(v):
+                    t[2] = int(v)
+                elif isinstance(v, int):
+                    t[2] = float(v)
+            except (OverflowError, ValueError):
+                pass
+        elif r < 0.30:
+            t[0] = rng.choice([t[1], t[2]])
+        elif r < 0.36 and isinstance(t[1], float) and t[1] == t[1] and abs(t[1]) < INF:
+            t[2] = math.nextafter(t[1], rng.choice([INF, -INF]))      # the narrowest non-zero span
+        cases.append(["map"] + t)
+    return cases
+
+
+def gen_fsleep(rng, thorough):
+    vals = list(FSPECIAL) + list(ISPECIAL) + [None, -1e-320, -2.0 ** -1074, 1000.0, 999.9999999999999, 1e-5]
+    vals += [rand_num(rng, 0.4) for _ in range(3000 if thorough else 500)]
+    return [["sleep", v, False] for v in vals]
+
+
+XPINS = [1, True, 1.0, "1", "01", 0, False, 0.0, -0.0, "0", 7, 7.0, "7", "07", 7.5, "7.5", None, "None", [7], [], 2.5, -1, -1.0, "-1", 0.5, 255.0, "A0"]
+
+
+def gen_corex(rng, thorough):
+    cases = []
+    for p in XPINS:
+        for q in XPINS:
+            cases.append(["corex", [["pin_mode", p, PULLUP], ["digital_read", q], ["analog_write", p, 200.5], ["digital_write", p, 0],
+                                    ["digital_read", q], ["analog_read", q], ["pin_mode", q, "OUTPUT"], ["analog_write", q, None], ["analog_read", p]]])
+    for _ in range(5000 if thorough else 500):
+        hot = rng.sample(range(len(XPINS)), rng.randint(2, 6))
+        ops = []
+        for _ in range(rng.randint(1, 16)):
+            p = XPINS[rng.choice(hot)]
+            k = rng.random()
+            if k < 0.2:
+                ops.append(["pin_mode", p, rng.choice(MODES + [PULLUP])])
+            elif k < 0.4:
+                ops.append(["digital_write", p, rng.choice(DVALS)])
+            elif k < 0.6:
+                ops.append(["analog_write", p, rng.choice(AVALS + [None])])
+            elif k < 0.8:
+                ops.append(["digital_read", p])
+            else:
+                ops.append(["analog_read", p])
+        cases.append(["corex", ops])
+    return cases
+
+
 def gen_sleep(rng, thorough):
     vals = [-1000, -1, -0.5, -1e-9, 0, 0.0, 1, True, False, 2.5, 0.001, 0.1, 10, 999, 1000, 1500, 1000.0, 1e6, 86400000, None, 3, 250]
     vals += [rng.choice([1, -1]) * rng.randint(0, 10**6) / rng.choice([1, 2, 4, 8]) for _ in range(400 if thorough else 80)]
@@ -700,17 +1023,35 @@ def shrink_core(case, budget=12):
 # ----------------------------------------------------------------------------
 
 def listed_findings(ctx):
-    findings = ctx.findings
-    if not findings:      # not merged into known_findings.json yet: read this work package's own list
-        own = C.VERIF / "known_findings.d" / "C20.json"
-        if own.exists():
-            import json
-            findings = [e for e in json.loads(own.read_text()) if e.get("property") == "C20"]
+    """the entries of known_findings.json for C20, plus those of this work package's own list that are not merged yet"""
+    import json
+    findings = list(ctx.findings or [])
+    own = C.VERIF / "known_findings.d" / "C20.json"
+    if own.exists():
+        have = {e.get("id") for e in findings}
+        findings += [e for e in json.loads(own.read_text()) if e.get("property") == "C20" and e.get("id") not in have]
     return findings
+
+
+def replay_map_witness(f):
+    """the calls of a Utils.map finding, judged WITHOUT the range guard: each must return a finite number within
+    the float tolerance of the exact affine map; -> list of failing calls"""
+    calls = f["witness"]["calls"]
+    res = C.run_impl("c20_impl.py", {"cases": calls})
+    bad = []
+    for c, r in zip(calls, res):
+        x, fl, fh, tl, th = (frac(v) for v in c[1:6])
+        want = tl + (x - fl) * (th - tl) / (fh - fl)
+        if r[0] != "ok" or not is_num(r[1]) or not close(frac(r[1]), want, abs(tl) + abs(want)):
+            bad.append([c, r[:3]])
+    return bad
 
 
 def replay_witness(f):
     """run the witness history of a listed entry on the real code; -> (case, impl result, oracle failures)"""
+    if "calls" in f["witness"]:
+        bad = replay_map_witness(f)
+        return f["witness"]["calls"], None, bad
     case = ["core", f["witness"]["ops"], None]
     r = C.run_impl("c20_impl.py", {"cases": [case]})[0]
     probe = C.Ctx("C20", "quick", 0)
@@ -742,8 +1083,9 @@ def run(ctx: C.Ctx):
     core_cases, alias_pairs = gen_core(rng, thorough)
     groups = {
         "core": core_cases,
-        "map": gen_map(rng, thorough),
-        "sleep": gen_sleep(rng, thorough),
+        "corex": gen_corex(rng, thorough),
+        "map": gen_map(rng, thorough) + gen_fmap(rng, thorough),
+        "sleep": gen_sleep(rng, thorough) + gen_fsleep(rng, thorough),
         "button": gen_button(rng, thorough),
         "pot": gen_pot(rng, thorough),
         "ultra": gen_ultra(rng, thorough),
@@ -751,18 +1093,32 @@ def run(ctx: C.Ctx):
     }
     cases = [c for g in groups.values() for c in g]
     impl = C.run_impl("c20_impl.py", {"cases": cases}, timeout=900)
+    fcases = [c for c in cases if c[0] in ("map", "sleep")]
     if ctx.exe:
         model = ctx.model([enc_case(c) for c in cases])
+        fmodel = ctx.model([enc_fcase(c) for c in fcases])
     else:
         model = [None] * len(cases)
+        fmodel = None
 
     n_fail0 = len(ctx.failures)
     for c, r, m in zip(cases, impl, model):
         if m == [2]:
             ctx.disagree("model could not decode the case (harness encoding bug)", c, m, None)
             m = None
+        if c[0] == "sleep" and not (c[1] is None or sleep_in_guard(c[1])):
+            m = None                      # the exact-rational sleep model takes finite numbers float() can hold
         EVAL[c[0]](ctx, st, c, r, m)
         st.distinct.add(repr(c[:2]) if c[0] == "core" else repr(c))
+
+    # bit-exact correspondence of Utils.map / Utils.sleep (binary64 model, float.hex on both sides)
+    if fmodel is not None:
+        impl_of = {id(c): r for c, r in zip(cases, impl)}
+        for c, fm in zip(fcases, fmodel):
+            if fm == [2]:
+                ctx.disagree("binary64 model could not decode the case (harness encoding bug)", c, fm, None)
+                continue
+            (eval_fmap if c[0] == "map" else eval_fsleep)(ctx, st, c, impl_of[id(c)], fm)
 
     # alias oracle on the implementation: respelled histories behave identically
     n_alias = 0
@@ -813,26 +1169,31 @@ def run(ctx: C.Ctx):
     ctx.coverage.update({
         "evaluations": len(cases),
         "distinct_nontrivial": len({repr(c) for c in cases if nontrivial(c)}),
-        "rule": "Core: all histories of length <=2 (quick: + 3000 sampled of the 13824 length-3 ones; thorough: all) over a 24-call boundary alphabet, each followed by 8 probe reads; every single call of the full alphabet (11 pins x modes/values) from 4 start states followed by reads of all pins; seeded random histories of length <=20 (hot-pin biased, aliases mixed); pull-up histories (11 pins x 6 leaving modes x 5 fillers: INPUT_PULLUP, read, filler, other mode through an alias, reads, pull-up again, write, re-configure; plus seeded pin_mode-heavy toggling histories) - the region the former finding's guard excluded, counted as core_reads_unwritten_after_leaving_pullup; respelled copies for the alias oracle. map: full 5-fold product of a small boundary set + seeded draws from a 26-value pool with forced zero spans, end points, and narrow non-zero source windows at large magnitude (1e9..1e12, widths 2^-20..500) or tiny ones at the origin. sleep: boundary list + seeded values. Button: all bool sequences of length <=8 through the provider and through set_pressed + seeded long mixed histories. pot/ultra: constructor grids x boundary provider values. serial: constructor grid, values x newlines, seeded write/close/connect histories. Non-trivial = a Core history in which some pin is read after a call that addressed it / a button history with at least one poll / every other case.",
-        "samples": [core_cases[30], core_cases[-1], groups["map"][17], groups["sleep"][3], groups["button"][700], groups["pot"][2], groups["ultra"][5], groups["serial"][60]],
+        "rule": "Core: all histories of length <=2 (quick: + 3000 sampled of the 13824 length-3 ones; thorough: all) over a 24-call boundary alphabet, each followed by 8 probe reads; every single call of the full alphabet (11 pins x modes/values) from 4 start states followed by reads of all pins; seeded random histories of length <=20 (hot-pin biased, aliases mixed); pull-up histories (11 pins x 6 leaving modes x 5 fillers: INPUT_PULLUP, read, filler, other mode through an alias, reads, pull-up again, write, re-configure; plus seeded pin_mode-heavy toggling histories) - the region the former finding's guard excluded, counted as core_reads_unwritten_after_leaving_pullup; respelled copies for the alias oracle. map: full 5-fold product of a small boundary set + seeded draws from a 26-value pool with forced zero spans, end points, and narrow non-zero source windows at large magnitude (1e9..1e12, widths 2^-20..500) or tiny ones at the origin. Bit-exact stream for map (every map case, old and new, also goes through the binary64 model and is compared by float.hex): products of 14 specials (nan, +-inf, +-0.0, 5e-324, +-DBL_MAX, 1, True, None, 2^53+1, 10^400, 0.1) in four argument positions, the witnesses of F-C20-map-float-range and their neighbours, seeded draws mixing arbitrary 64-bit patterns (NaNs, subnormals), special floats, ints up to 2200 bits (around 2^53, 2^64, 2^1024-2^970, 10^400), bools, None, int-only triples (true division of ints), zero spans across types, end points, one-ulp spans. sleep: boundary list + seeded values + the same specials/ints/seeded numbers for the bit-exact model. Core over extended pins (corex): all ordered pairs of 27 pins (1, True, 1.0, '1', '01', 0, False, 0.0, -0.0, 7, 7.0, 7.5, '7.5', None, 'None', [7], [], ...) in a 9-call history + seeded histories of length <= 16. Button: all bool sequences of length <=8 through the provider and through set_pressed + seeded long mixed histories. pot/ultra: constructor grids x boundary provider values. serial: constructor grid, values x newlines, seeded write/close/connect histories. Non-trivial = a Core history in which some pin is read after a call that addressed it / a button history with at least one poll / every other case.",
+        "samples": [core_cases[30], core_cases[-1], groups["corex"][40], groups["map"][17], ["map", 0, 0, 1, -1e308, 1e308], ["map", 1, 2 ** 53 + 1, 2.0 ** 53, 0, 1], groups["sleep"][3], groups["button"][700], groups["pot"][2], groups["ultra"][5], groups["serial"][60]],
         "distribution": {"cases_per_submodel": {k: len(v) for k, v in groups.items()},
                          "core_history_lengths(bucketed by 5)": dict(sorted(sizes.items())),
                          "alias_pairs_compared": n_alias,
                          "counts": dict(sorted(st.n.items()))},
         "exhaustive": False,
-        "guard": "none for Core: every read of every generated history is judged (the guard of the former finding F-C20-pullup-stale is gone with the repair of Core.pin_mode; its witness is replayed first on every run, fixed entries replayed: " + str(n_fixed_replayed) + "). Numbers: finite ints/floats/bools (None only for the raise paths); pins: int or ASCII str; text: ASCII for strip/upper/isdigit.",
+        "guard": "none for Core: every read of every generated history is judged (the guard of the former finding F-C20-pullup-stale is gone with the repair of Core.pin_mode; its witness is replayed first on every run, fixed entries replayed: " + str(n_fixed_replayed) + "). Utils.map ORACLE guard (finding F-C20-map-float-range): finite arguments, every non-zero magnitude in [1e-60, 1e60], every int exactly representable in binary64 (map_in_guard) - outside it only the bit-exact correspondence judges (model = code for nan/inf/overflow/huge ints too); Utils.sleep oracle: finite, |d| <= 1e300. Pins judged by the oracle: int or ASCII str (other hashable pins: correspondence only, the statement quantifies over int and str names); text: ASCII for strip/upper/isdigit.",
         "unmodelled": ["str() of floats and arbitrary objects in SerialMonitor.write", "SerialMonitor.read and pyserial itself",
-                       "binary64 rounding inside Utils.map / sleep / float() (model is exact over Q; compared to 1e-9 relative)",
-                       "IEEE specials (NaN, inf, -0.0) and ints too large for float()",
-                       "non-ASCII characters in str.isdigit / str.strip / str.upper (e.g. pin '²' makes Core raise ValueError; Potentiometer('A²') is accepted)",
-                       "Core pins that are neither int nor str (True and 7.0 hash like 1 and 7; unhashable pins raise)",
+                       "int / int true division: the model's int_truediv (quotient with >= 65 significant bits plus a sticky bit, rounded once) is compared with CPython bit for bit on ints up to 2200 bits, but its equality with the correctly rounded quotient is not proved (the float/float and int/float paths are: C20_fmap_rounding_sequence, C20_float_of_int)",
+                       "the error bound C20_fmap_error_bound is stated for the all-float path and with the intermediate quotient and product outside the subnormal range; no bound is proved for subnormal intermediates or for ints that float() has to round",
+                       "NaN payloads and the sign of NaN (one NaN in the model; float.hex prints 'nan' for all)",
+                       "non-ASCII characters in str.isdigit / str.strip / str.upper (e.g. pin '\u00b2' makes Core raise ValueError; Potentiometer('A\u00b2') is accepted)",
+                       "Core pins that are NaN / infinite floats or of exotic hashable types (tuples, bytes, Fraction, objects with __hash__): int, str, bool, finite float, None and unhashable pins are inside the model (Host/CoreKeys.v)",
                        "Potentiometer with float-valued providers truncates before the range check (-0.5 reads 0): outside the annotated int domain, modelled faithfully, not judged by the oracle",
                        "return values of pin_mode/digital_write/analog_write/set_pressed/close/connect (not part of C20; only raise-vs-return is compared)"],
         "trusted_base": C.COMMON_TRUSTED + ["harness/impl/c20_impl.py (clears Core's three dicts per history; recording sleep_func and monkeypatched time.sleep; provider callables fed from the sample list; fake serial backend injected as Reduino.Communication.serial like tests/test_utils.py)",
                                             "harness/props/c20.py RefMem (reference memory semantics), cross-checked on every read against Coq ref_dread/ref_aread/guard through the wire",
-                                            "CPython fractions.Fraction (exact arithmetic and round-half-even of the oracle)"],
+                                            "CPython fractions.Fraction (exact arithmetic and round-half-even of the oracle)",
+                                            "bit-exact float codec of harness/props/c20.py (enc_sf/dec_sf: math.frexp/ldexp to (sign, 53-bit mantissa, exponent) and back, self-checked by an assert on every encoded value) and float.hex() as the observation of a binary64 result",
+                                            "Coq.Floats.SpecFloat (standard library, pure Gallina over Z: no primitive floats, no axioms) as the definition of the binary64 operations of Host/UtilsFloat.v - this is what is extracted and run; Proofs/UtilsFloatP.v proves these operations equal to Flocq 4.1.0 IEEE754.BinarySingleNaN Bplus/Bminus/Bmult/Bdiv (mode_NE)",
+                                            "Flocq 4.1.0 + Coq Reals for the theorems stated with real numbers (C20_fmap_eq_floats, C20_fmap_rounding_sequence, C20_fmap_lower_endpoint_partial/_guard, C20_fmap_upper_endpoint_partial, C20_fmap_error_bound, C20_float_value_is_fraction, C20_fmap_error_vs_rational_model, C20_fmap_hypotheses_nonvacuous, C20_float_valid_is_B, C20_float_of_int, C20_fsleep_int, C20_fsleep_float): Print Assumptions lists ClassicalDedekindReals.sig_not_dec, ClassicalDedekindReals.sig_forall_dec, FunctionalExtensionality.functional_extensionality_dep and Classical_Prop.classic for them (standard-library axioms of the classical real numbers); C20_fmap_agrees_with_primitive_floats evaluates Coq's primitive binary64 floats by vm_compute and Print Assumptions lists the kernel primitives it uses (PrimFloat.add/sub/mul/div/eqb/..., PrimInt63.*: primitive operations of the kernel, not logical axioms; Coq.Floats.FloatAxioms is not imported); every other C20 theorem is closed under the global context"],
     })
-    ctx.assumptions += ["floats are finite binary64 numbers; the model computes on their exact rational values",
+    ctx.assumptions += ["two models of Utils.map/sleep: the exact-rational one takes finite numbers and computes on their exact values; the binary64 one (SpecFloat) takes every float (nan, inf, signed zeros, subnormals), every int, bool and None",
+                        "axioms: the real-number theorems about the binary64 model depend on ClassicalDedekindReals.sig_not_dec, ClassicalDedekindReals.sig_forall_dec, FunctionalExtensionality.functional_extensionality_dep, Classical_Prop.classic (Coq Reals, through Flocq); the primitive-float cross-check lists the kernel's PrimFloat/PrimInt63 primitives; no axiom of ours",
                         "the implementation runner observes Core only through its five functions and its three module-level dicts"]
 
 
@@ -852,3 +1213,4 @@ def replay(data):
     for f in probe.failures:
         print("STILL FAILS:", f["what"], "expected", f["expected"], "observed", f["observed"])
     return 1 if probe.failures else 0
+
